@@ -16,7 +16,7 @@ U.externs = ['rowan', 'ecow', 'unscanny']
 U.flags = []
 U.features = ['pattern']   # core::str::pattern::Pattern is named in the assumed contracts of str::strip_prefix / starts_with
 # failures that are not tied to a spliced clause: termination and panic freedom belong to C02
-U.kind_tags = {'decreases': 'C02', 'termination': 'C02', 'overflow': 'C02', 'assert': 'C02', 'panic': 'C02', 'divzero': 'C02', 'bounds': 'C02'}
+U.kind_tags = {'precondition': 'C02', 'decreases': 'C02', 'termination': 'C02', 'overflow': 'C02', 'assert': 'C02', 'panic': 'C02', 'divzero': 'C02', 'bounds': 'C02'}
 
 BOTH = 'C01 C02'
 
@@ -363,7 +363,8 @@ U.fn('parser.rs', 'CompletedMarker::or_error',
               'final(parser).fuel() == old(parser).fuel()', 'final(parser).cur() == old(parser).cur()', 'final(parser).bv() == old(parser).bv()', 'final(parser).same_shape(old(parser))'])
 
 PINV = ['old(self).inv(false)']
-INV_ENS = [C('final(self).inv_s(false)', 'C02'), C('final(self).inv_t(false)', 'C01')]
+ERRS_OK = C('final(self).errs_ok()', 'C17', name='recorded errors stay well-formed (non-empty message, range inside the text on char boundaries)')
+INV_ENS = [C('final(self).inv_s(false)', 'C02'), C('final(self).inv_t(false)', 'C01'), ERRS_OK]
 SHAPE = C('final(self).same_shape(old(self))', 'C02')
 FUEL_LE = C('final(self).fuel() <= old(self).fuel()', 'C02')
 U.fn('parser.rs', 'ParserBase::new',
@@ -432,7 +433,7 @@ U.fn('parser.rs', 'ParserBase::eat_if', requires=PINV,
                          C('ret && kind != TokenKind::Eof ==> final(self).fuel() < old(self).fuel()', 'C02'),
                          '!ret ==> *final(self) == *old(self)', 'ret ==> !final(self).cur().spec_is_trivia()'])
 U.fn('parser.rs', 'ParserBase::save', requires=PINV,
-     ensures=[C('final(self).inv_s(true)', 'C02'), C('final(self).inv_t(true)', 'C01', name='save pushes exactly the look-ahead token text'),
+     ensures=[C('final(self).inv_s(true)', 'C02'), C('final(self).inv_t(true)', 'C01', name='save pushes exactly the look-ahead token text'), ERRS_OK,
               'final(self).cur() == old(self).cur()', 'final(self).fuel() == old(self).fuel()',
               'final(self).bv().parents == old(self).bv().parents', 'final(self).bv().n == old(self).bv().n + 1', 'final(self).srcv() == old(self).srcv()',
               'final(self).bnd() == old(self).bnd()'],
